@@ -159,6 +159,23 @@ pub fn multiset(toks: &[Tok]) -> std::collections::BTreeMap<String, i64> {
 }
 
 /// top-level headings of a text: (line, level, text)
+/// Whether `line` lies inside a block quote (at any nesting).
+pub fn line_in_quote(text: &str, line: usize) -> bool {
+    fn walk(bs: &[scan::SBlock], lines: &Lines, line: usize) -> bool {
+        bs.iter().any(|b| {
+            if matches!(b.kind, BKind::Quote) {
+                let (a, z) = (lines.line_of(b.span.0), lines.line_of(b.span.1.saturating_sub(1).max(b.span.0)));
+                if a <= line && line <= z {
+                    return true;
+                }
+            }
+            walk(&b.children, lines, line)
+        })
+    }
+    let s = scan::scan(text);
+    walk(&s.blocks, &Lines::new(text), line)
+}
+
 pub fn headings(text: &str) -> Vec<(usize, u8, String)> {
     let s = scan::scan(text);
     let lines = Lines::new(text);
